@@ -127,6 +127,23 @@ def run_spec(pid, spec):
     return res
 
 
+def _vary_syscall_faults(spec, seed):
+    """One write-side I/O fault in four becomes a failing rename/replace, mkdir or remove instead (EACCES, EXDEV-like
+    EIO, ENOSPC): the steps an 'atomic' writer adds around its data.  Code that never makes these calls runs such an
+    op as a clean one, with the strict checks of a clean op."""
+    rng = random.Random(splitmix(seed, "syscall-faults"))
+    for op in spec.get("ops", []):
+        fl = op.get("fs_faults") if isinstance(op, dict) else None
+        if fl and isinstance(fl, list) and fl[0].get("mode", "w") == "w" and rng.random() < 0.25:
+            on = rng.choice(["rename", "rename", "rename", "mkdir", "remove"])
+            op["fs_faults"] = [{"on": on, "mode": "w", "nth": 1, "errno": rng.choice(["EACCES", "EIO", "ENOSPC"])}]
+        it = op.get("interrupt") if isinstance(op, dict) else None
+        if isinstance(it, dict) and rng.random() < 0.4:
+            # aim the interruption a few lines after the k-th file-system event of the op (see common.interrupt_at)
+            it["after_event"] = rng.randint(0, 60)
+            it["delta"] = rng.choice([0, 0, 1, 2, 3, 5, 8, 13, 21])
+
+
 def _worker_chunk(pid, base_seed, tier, indices, keep_specs):
     faulthandler.enable()
     prop = load_prop(pid)
@@ -141,6 +158,7 @@ def _worker_chunk(pid, base_seed, tier, indices, keep_specs):
             else:
                 seed = splitmix(base_seed, pid, idx)
                 spec = prop.gen(random.Random(seed), tier, c)
+                _vary_syscall_faults(spec, seed)
                 if (seed >> 15) % 8 == 0:
                     # the working directory's path has a dot in it (john.doe, boards.v2)
                     spec.setdefault("cfg", {})
